@@ -198,6 +198,39 @@ func init() {
 		}
 		return okStr(hx(b)), nil
 	}
+	// decode, then re-encode what was accepted (C08)
+	opTable["phycanon"] = func(r *tokReader) (string, error) {
+		data, err := r.hex()
+		if err != nil {
+			return "", err
+		}
+		var p lw.PHYPayload
+		if e := p.UnmarshalBinary(data); e != nil {
+			return resERR, nil
+		}
+		out := fmtFrame(&p) + " | "
+		b, e := p.MarshalBinary()
+		if e != nil {
+			return okStr(out + resERR), nil
+		}
+		return okStr(out + hx(b)), nil
+	}
+	// encode, then decode what was produced (C01)
+	opTable["phyrt"] = func(r *tokReader) (string, error) {
+		p, err := parseFrame(r)
+		if err != nil {
+			return "", err
+		}
+		b, e := p.MarshalBinary()
+		if e != nil {
+			return resERR, nil
+		}
+		var q lw.PHYPayload
+		if e := q.UnmarshalBinary(b); e != nil {
+			return okStr(hx(b) + " | " + resERR), nil
+		}
+		return okStr(hx(b) + " | " + fmtFrame(&q)), nil
+	}
 	opTable["phytextenc"] = func(r *tokReader) (string, error) {
 		p, err := parseFrame(r)
 		if err != nil {
